@@ -264,15 +264,18 @@ class ExcludeRegionState(object):  # pylint: disable=too-many-instance-attribute
         # after it is enabled again are based on the actual tool position
         xAxis = self.position.X_AXIS
         yAxis = self.position.Y_AXIS
+        anyExcluded = False
 
+        # All points are walked, even after an excluded one is found, so the tracked position
+        # always ends up at the final point of the move
         for index in range(0, len(xyPairs), 2):
             x = xAxis.setLogicalPosition(xyPairs[index])
             y = yAxis.setLogicalPosition(xyPairs[index + 1])
 
-            if (self._exclusionEnabled and self.isPointExcluded(x, y)):
-                return True
+            if (not anyExcluded and self._exclusionEnabled and self.isPointExcluded(x, y)):
+                anyExcluded = True
 
-        return False
+        return anyExcluded
 
     def isExclusionEnabled(self):
         """Whether exclusion is currently enabled (True) or disabled (False)."""
